@@ -27,8 +27,8 @@ def run(chk):
         seen.setdefault(klass(e), e)
     for k, e in seen.items():
         chk.report("codec:" + k, "event serializer: values %s (unescaped=%s, rewrite=%s) decoded to fields %s / second output %s, which EventCodec!Check rejects"
-                   % ([tstr(v) for v in e["values"]], e["unescaped"], e["rewrite"], [(bytes(f[0]).decode(), tstr(f[1])) for f in e["decoded"]["fields"]],
-                      [(bytes(f[0]).decode(), tstr(f[1])) for f in e["second"]["fields"]]), {"event.json": e})
+                   % ([tstr(v) for v in e["values"]], e["unescaped"], e["rewrite"], [(bytes(f[0]).decode("latin1"), tstr(f[1])) for f in e["decoded"]["fields"]],
+                      [(bytes(f[0]).decode("latin1"), tstr(f[1])) for f in e["second"]["fields"]]), {"event.json": e})
     chk.cov.update({"states": r["states"], "transitions": r["states"], "traces_validated_against_impl": r["events"],
                     "evaluations": r["events"], "distinct_nontrivial": r["cases"], "exhaustive": True,
                     "rule": "records x serialization configs enumerated by the driver: every role (plain / environment / hidden / five rewriter chains) of three fields x small values incl. escapes and a trailing backslash; schemas of 3,13,14,15,16,20 fields and a 16+ entry environment map; value lengths 1,15,16,31,32,255,256,65534..65537,70000 per field class and chain, with escape-bearing prefixes/suffixes so that the rewritten length crosses 65535/65536 in both directions; every string up to length %d over {a \\\\ n t x 2-byte-rune} through unescape and inline+unescape, flagged Unescaped or not; boundary timestamps; every record is serialized by two serializer instances (two outputs sharing one record)" % (7 if chk.tier == "thorough" else 4),
